@@ -83,13 +83,18 @@ def handleL4Core (strict : Bool) (head srcE inE : String) (expects : List String
       -- `ws:` prefix: compare after collapsing every run of white space (row layout of a dump is not part of it)
       let collapse := fun (t : String) => " ".intercalate ((t.split (fun c => c == ' ' || c == '\t' || c == '\n' || c == '\r')).toList.map (·.toString) |>.filter (· != ""))
       let holds := fun (e : String) =>
-        if e.startsWith "ws:" then ((collapse realOut).splitOn (collapse (e.drop 3).toString)).length > 1
+        -- verdicts the property fixes for a program known (by construction) to be invalid / valid
+        if e == "!refused" then fieldOf ans "trace" == "-" && fieldOf ans "exit" == "0" && !realOut.trimAscii.toString.isEmpty
+        else if e == "!accepted" then !(realOut.startsWith "Syntax Error" || realOut.startsWith "Label " || realOut.startsWith "Error")
+        else if e.startsWith "ws:" then ((collapse realOut).splitOn (collapse (e.drop 3).toString)).length > 1
         else (realOut.splitOn e).length > 1
       let failed := expects.filter (fun e => !holds e)
       let expectOk := failed.isEmpty
       if !expectOk then
         { model := if ok then ans else model, specOk := false,
-          spec := s!"the output contains `{failed.headD ""}` (stated by the generator from the property)", nontrivial := true } else
+          spec := (if failed.headD "" == "!refused" then "this program is invalid by construction: a diagnostic and nothing executed"
+                   else if failed.headD "" == "!accepted" then "this program is valid by construction: it is accepted and runs"
+                   else s!"the output contains `{failed.headD ""}`") ++ " (stated by the generator from the property)", nontrivial := true } else
       { model := if ok then ans else model, specOk := specOk && (ok || sameDigest),
         spec := if ok then "exit status 0/1, no 'Internal Error' in the output" else "reference run: " ++ model,
         nontrivial := !r.diag && r.trace.length > 1 }
